@@ -451,7 +451,14 @@ func (loader *Loader) resolveComponent(doc *T, ref string, path *url.URL, resolv
 		return cursor, nil
 	}
 	var cursor any
-	if cursor, err = drill(componentDoc); err != nil {
+	if u := componentDoc.url; u != nil && componentPath != nil && (u.Scheme != componentPath.Scheme || u.Host != componentPath.Host || u.Path != componentPath.Path || u.RawQuery != componentPath.RawQuery) {
+		// the reference sits in a file loaded as a single element: its pointer is followed from
+		// that file, not from the document the element was loaded into
+		err = failedToResolveRefFragmentPart(ref, "")
+	} else {
+		cursor, err = drill(componentDoc)
+	}
+	if err != nil {
 		// look again in the raw data of the document the reference designates
 		if componentPath == nil {
 			return nil, nil, err
@@ -464,8 +471,10 @@ func (loader *Loader) resolveComponent(doc *T, ref string, path *url.URL, resolv
 		if err2 = unmarshal(data, &cursor, IncludeOrigin); err2 != nil {
 			return nil, nil, err
 		}
-		if cursor, err2 = drill(cursor); err2 != nil || cursor == nil {
-			return nil, nil, err
+		if fragment != "/" { // the empty pointer designates the whole file
+			if cursor, err2 = drill(cursor); err2 != nil || cursor == nil {
+				return nil, nil, err
+			}
 		}
 		err = nil
 	}
